@@ -464,12 +464,19 @@ impl CERT {
                 .map_err(|_| ParseError::Message("Invalid digit found in algorithm token"))?,
         );
 
+        // "The certificate/CRL portion is represented in base 64 and may be divided into any
+        // number of white-space-separated substrings, down to single base-64 digits, which are
+        // concatenated to obtain the full signature." (RFC 4398 section 2.2)
         let token = iter
             .next()
             .ok_or(ParseError::Message("CERT data missing"))?;
+        let data = iter.fold(String::from(token), |mut data, token| {
+            data.push_str(token);
+            data
+        });
 
         let cert_data = data_encoding::BASE64
-            .decode(token.as_bytes())
+            .decode(data.as_bytes())
             .map_err(|_| ParseError::Message("Invalid base64 CERT data"))?;
 
         Ok(Self::new(cert_type, key_tag, algorithm, cert_data))
